@@ -143,3 +143,5 @@ add_spec_namespace(_io)
 schema(_io.StringIO, buf='str')
 schema(xmlwriter.XMLWriter, _data='StringIO', _tag_stack='list[str]', _indent='int', _indent_unit='int',
        _indent_char='str', _newline_char='str')
+
+schema(girwriter.GIRWriter, sources_roots='list[str]', _namespace='Namespace?')
